@@ -14,7 +14,7 @@ import numpy as np
 from ..core import util
 from ..oracles import graphs as G
 from ..oracles import stats as S
-from ..workloads import gmat
+from ..workloads import gmat, callforms
 
 TECHNIQUE = "runtime sample monitor on NormalDistribution/LGANM/ANM.sample: shape, Wishart-variance z-scores with three-fold escalation, exact point-mass columns, null-space residuals, per-marginal DKW band, lag-1 and repeated-row detection; linear ANM vs LGANM law"
 LEVEL_TEXT = ("Samples of size 4e4 (quick) / 4e5 (thorough) from random LGANMs (signed weights, unequal variances, all three "
@@ -164,7 +164,7 @@ def judge(family, case, rec):
         rec.count("nd:check_valid=" + case.get("check_valid", "ignore"))
 
         def draw(rs, nn):
-            return dist.sample(nn, random_state=rs)
+            return dist.sample(nn, rs) if case["rs"] % 4 == 1 else dist.sample(nn, random_state=rs)
         pop_mean, pop_cov = np.asarray(mean, dtype=float), np.asarray(cov, dtype=float)
         nontrivial = len(mean) >= 2
     else:
@@ -196,6 +196,9 @@ def judge(family, case, rec):
                 rec.count("history:same-dict-object-swept-in-place")
 
             def draw(rs, nn):
+                if case["rs"] % 4 == 1:      # every argument positionally, in the documented order
+                    rec.count("call-form:positional")
+                    return model.sample(*callforms.positional("LGANM.sample", nn, False, random_state=rs, **kw))
                 return model.sample(nn, random_state=rs, **kw)
         else:
             anm, ado, ashift, anoise = _anm_from(sempler, W, means, variances, iv)
@@ -203,6 +206,9 @@ def judge(family, case, rec):
                 rec.count("anm:var!=1")
 
             def draw(rs, nn):
+                if case["rs"] % 4 == 1:
+                    rec.count("call-form:positional")
+                    return anm.sample(*callforms.positional("ANM.sample", nn, ado, ashift, anoise, rs))
                 return anm.sample(nn, do_interventions=ado, shift_interventions=ashift, noise_interventions=anoise, random_state=rs)
     p = len(pop_mean)
     rec.case(family, case, bool(nontrivial))
